@@ -126,6 +126,28 @@ def run(ctx):
             for e in (meta.get("stuck") or []):
                 ob_failed.append("harness scenario did not proceed as scripted: " + e)
 
+    # thorough tier: the same scenarios once more under the race detector (DESIGN.md section 11:
+    # proof cannot exhibit a data race; seeded schedule points + -race probe the implementation)
+    race_info = {}
+    if ctx.tier == "thorough" and hb is not None and not ctx.replay:
+        hdir = os.path.join(common.VERIF, "harness")
+        rbin = os.path.join(ctx.work, "harness-c11-race")
+        rc, out = common.sh([common.go_cmd(), "build", "-race", "-modfile=" + os.path.join(ctx.work, "go.mod"), "-tags", "verif",
+                             "-o", rbin, "./cmd/c11"], cwd=hdir, env=common.go_env(), timeout=900)
+        if rc != 0:
+            ctx.notes.append({"race_build_failed": out[-400:]})
+        else:
+            rdir = os.path.join(ctx.work, "race")
+            os.makedirs(rdir, exist_ok=True)
+            rc, out = common.sh([rbin, "-seed", str(ctx.seed), "-tier", "quick", "-out", rdir], timeout=900)
+            races = out.count("WARNING: DATA RACE")
+            race_info = {"scenarios_under_race_detector": json.load(open(os.path.join(rdir, "meta.json"))).get("cases", 0) if rc == 0 else 0,
+                         "data_races_reported": races}
+            if races:
+                i0 = out.find("WARNING: DATA RACE")
+                ctx.violation("data-race", {"kind": "race", "report": out[i0:i0 + 3000]}, True,
+                              "%d data race(s) reported by the race detector while Shutdown/Close ran against live connections" % races)
+
     # case text for the second pass
     case_texts = {}
     if model_bad or prop_bad:
@@ -221,6 +243,7 @@ def run(ctx):
                                                    "shutdown_error_texts", "final_registered_hist", "unsettled", "wall_ms")},
         "samples": meta.get("samples"),
     }
+    coverage.update(race_info)
     ctx.finish("proof", coverage, [
         "PARTIAL: the theorems hold for every interleaving of the LTS (induction over steps); that the running proxy is "
         "inside the LTS is checked per recorded run (trace inclusion), which is testing; the scheduler is the runtime's",
